@@ -163,7 +163,7 @@ func cmdCheck(prop, tier string, jobs int) int {
 		}
 	}
 	s.solver.Solve(smtObs, tier == "thorough", timeoutFor(tier), jobs)
-	s.solver.Solve(pr.canaries, false, 5, jobs)
+	s.solver.SolveCanaries(pr.canaries, jobs)
 
 	knownBy := map[string]KnownFinding{}
 	for _, k := range known {
